@@ -380,18 +380,10 @@ func numeralDenotes(s string, a *anode) bool {
 	if a.exact != nil && s == a.exact.String() {
 		return true
 	}
-	f := a.f
-	if s == bridge.NumberToString(f) {
-		return true
-	}
-	g, err := strconv.ParseFloat(s, 64)
-	if err != nil {
-		return false
-	}
-	if math.IsNaN(f) {
-		return math.IsNaN(g)
-	}
-	return g == f
+	// the JavaScript spelling (ES5 9.8.1), which stores into []string elements
+	// use as well; Go's %v spellings (1e-07, +Inf, -0, 9.223372036854776e+18)
+	// are not it
+	return s == bridge.NumberToString(a.f)
 }
 
 // loudOK reports whether (t, a) may fail loudly.
